@@ -177,3 +177,36 @@ Section Model.
   Definition single_val_vec (vals : list T) (dim : nat) : list T :=
     firstn dim vals ++ repeat (last vals zero) (dim - length vals).
 End Model.
+
+(* ---- base.py : fit, the bookkeeping around the optimiser.  Parameters are held in sorted-name order
+   (all_names); skipm marks the skipped names.  The objective _neg_kllf writes every trial point of the
+   optimiser into the free parameters (setattr in zip order), and the optimum is written back the same way.
+   The optimiser is an oracle: any list of trial points and any final point. *)
+Section FitBook.
+  Context {T : Type}.
+  (* for name, val in zip(para_names, vals): setattr(self, name, val) *)
+  Fixpoint scatter (skipm : list bool) (vals : list T) (st : list T) : list T :=
+    match skipm, st with
+    | true :: sk, v :: st' => v :: scatter sk vals st'
+    | false :: sk, v :: st' =>
+        match vals with
+        | x :: xs => x :: scatter sk xs st'
+        | [] => v :: scatter sk [] st'
+        end
+    | _, _ => st
+    end.
+  (* values of the free parameters, in order *)
+  Fixpoint gather (skipm : list bool) (st : list T) : list T :=
+    match skipm, st with
+    | true :: sk, _ :: st' => gather sk st'
+    | false :: sk, v :: st' => v :: gather sk st'
+    | _, _ => []
+    end.
+  (* result: the object's parameters after fit, and the returned dict (None = {}, no free parameter) *)
+  Definition fit_book (skipm : list bool) (trials : list (list T)) (xfinal : list T) (st : list T)
+    : list T * option (list T) :=
+    if forallb (fun b => b) skipm then (st, None)
+    else let st1 := fold_left (fun s tr => scatter skipm tr s) trials st in
+         let st2 := scatter skipm xfinal st1 in (st2, Some st2).
+End FitBook.
+
